@@ -271,6 +271,52 @@ def corr_memio(ctx, chk, broken):
     return out, cov
 
 
+def corr_c18(ctx, chk, broken):
+    """C18: (a) programs on the real tinycpm machine vs the regenerated CPU model running the regenerated BIOS bytes vs the reference;
+    (b) the Go glue method by method: operation sequences on the real tinycpm.Memory / tinycpm.IO vs the methods TRANSLATED from
+    internal/tinycpm (Z80/Gen/CPMGlue.lean) on a memory built by the translated put from the regenerated pages"""
+    import os
+    base = corr_stream([('cpm', 300, 5000, ['-per', '1'])], want_spec=True, go_timeout_is_violation=True,
+                       rule='one vector = one program run by CPU.Run on the REAL tinycpm machine (a copy of internal/tinycpm taken at check time; console writer and warning logger captured): 1-5 mixed calls of '
+                            'function 2 (any byte), function 9 (strings of length 0..400 and one of 4096, every byte value except $, incl. 00h/80h/FFh, strings crossing 256-byte pages or ending exactly at a page end), '
+                            'unsupported function numbers, writes to other ports and port reads; then JP 0; the caller\'s stack at F800h, at the top of memory, right below the stub, in the gap between stub and stop code, or anywhere in the upper half. '
+                            'Compared: console bytes in order, number of warnings, final PC/SP/HALT, Run result — with the regenerated CPU model running the BIOS bytes extracted from tinycpm.go, and with the reference')
+    out, cov = base(ctx, chk, broken)
+    n = 4000 if ctx.tier == 'thorough' else 300
+    ops = chk.gen_vectors('cpmglue', ['-seed', str(ctx.seed), '-n', str(n)])
+    lines = [l for l in ops.splitlines() if l.strip()]
+    rc, _ = chk.sh(['lake', 'build', 'Z80.Gen.CPMGlue', 'Z80.Gen.TinyCPM'], cwd=chk.LEAN, timeout=1800)
+    glue = {'sequences': n, 'operations': len(lines)}
+    if rc != 0:
+        glue['translated_methods_stream'] = 'NOT AVAILABLE: Z80.Gen.CPMGlue does not build (the translator refused internal/tinycpm)'
+    else:
+        from concurrent.futures import ThreadPoolExecutor
+        with ThreadPoolExecutor(max_workers=2) as ex:
+            f1 = ex.submit(chk.sh, [os.path.join(chk.WORK, 'harness'), 'cpmglue'], None, None, 1800, ops)
+            f2 = ex.submit(chk.sh, ['lake', 'env', 'lean', '--run', 'DriverCPMGlue.lean'], chk.LEAN, None, 1800, ops)
+            go = [l for l in f1.result()[1].splitlines() if l and not l.startswith('WARNING')]
+            le = [l for l in f2.result()[1].splitlines() if l and not l.startswith('WARNING')]
+        if len(go) != len(lines) or len(le) != len(lines):
+            out.append({'stream': 'cpmglue', 'id': 'length', 'vector': f'ops={len(lines)} real={len(go)} translated={len(le)}',
+                        'real': (go[-1] if go else None), 'other': (le[-1][:300] if le else None)})
+        start, kinds = 0, {}
+        for i, l in enumerate(lines[:min(len(go), len(le))]):
+            if l == 'new':
+                start = i
+            k = l.split()[0] + ':' + ('value' if len(go[i]) == 2 else go[i].split()[0])
+            kinds[k] = kinds.get(k, 0) + 1
+            if go[i] != le[i]:
+                out.append({'stream': 'cpmglue', 'id': f'glue@{start}+{i - start}', 'vector': '\n'.join(lines[start:i + 1]), 'real': go[i], 'other': le[i], 'kind': 'cpmglue'})
+                if len([o for o in out if o['stream'] == 'cpmglue']) >= 3:
+                    break
+        glue['distribution'] = dict(sorted(kinds.items()))
+        glue['translated_methods_stream'] = 'compared on every operation'
+    cov['evaluations'] = cov.get('evaluations', 0) + len(lines)
+    cov.setdefault('correspondence', {})['cpmglue'] = glue
+    cov['rule'] = cov.get('rule', '') + ' | cpmglue: one evaluation = one operation (new / Memory.Get / Memory.Set / IO.In / IO.Out / SetStdout / SetWarnLogger / dump of three writers and three loggers) on the real tinycpm types and on the translated methods; addresses biased to the BIOS pages, their edges, the gap between stub and stop code and back to written addresses'
+    return out, cov
+
+
 def corr_cim(ctx, chk, broken):
     """the BUILT cim2bin / cim2cas binaries on generated files vs the hand-written model"""
     import os, random, shutil, subprocess
@@ -807,14 +853,12 @@ PROPS = {
         'explanation': 'every field of CPU/States is exported and the model state is exactly those fields; no package-level state; a run continued from a snapshot at any boundary equals the original run (stepN (m+n) = stepN m then stepN n); any interleaving of two CPUs equals the two separate runs',
     },
     'C18': {
-        'targets': ['Z80.Props.C18'],
-        'count': ['Z80/Props/C18.lean', 'Z80/Props/C01.lean', 'Z80/Proofs/Block.lean', 'Z80/Proofs/RunLoop.lean'] + ALL_OBL,
-        'correspond': corr_stream([('cpm', 300, 5000, ['-per', '1'])], want_spec=True, go_timeout_is_violation=True,
-                                  rule='one vector = one program run by CPU.Run on the REAL tinycpm machine (a copy of internal/tinycpm taken at check time; console writer and warning logger captured): 1-5 mixed calls of '
-                                       'function 2 (any byte), function 9 (strings of length 0..400 and one of 4096, every byte value except $, incl. 00h/80h/FFh, strings crossing 256-byte pages or ending exactly at a page end), '
-                                       'unsupported function numbers, writes to other ports and port reads; then JP 0. Compared: console bytes in order, number of warnings, final PC/SP/HALT, Run result — with the regenerated CPU model '
-                                       'running the BIOS bytes extracted from tinycpm.go, and with the reference'),
-        'assumptions': ['tinycpm.Memory is a 64 KiB byte array (modelled as the byte store); tinycpm.IO is modelled by hand: bytes written to port 0 reach the writer in order, any other port write and any port read only warn and reads return 0 — tied by the correspondence and by C18_source_pinned (the text of every function of tinycpm.go, extracted on each run, is the text the model was written from)',
+        'targets': ['Z80.Props.C18', 'Z80.Props.C18Glue'],
+        'audit_extra': ['C18Glue'],
+        'count': ['Z80/Props/C18.lean', 'Z80/Props/C18Glue.lean', 'Z80/Props/C01.lean', 'Z80/Proofs/Block.lean', 'Z80/Proofs/RunLoop.lean'] + ALL_OBL,
+        'correspond': corr_c18,
+        'assumptions': ['the Go glue of internal/tinycpm (Memory.Get/Set/put, IO.In/Out/SetStdout/SetWarnLogger) is TRANSLATED on every run (tools/go2lean/tinycpmtr.go -> Z80/Gen/CPMGlue.lean; writers and loggers are opaque identities, a method returns the effects it asks for); Props/C18Glue.lean proves the translated methods are the console / byte-array model for every argument (glue_console: any port log); validated against the real package by the cpmglue stream',
+                        'NewMemory / NewIO / New / LoadFile are not translated (constructors, file reading): the pages NewMemory installs are extracted as data (Gen.cpmBios) and installed in the model by the translated put; the array is 65536 bytes (Gen.CPMGlue.arrayLens)',
                         'the BIOS pages are extracted from tinycpm.go by go2lean on every run (Gen.cpmBios); the theorems read the stub\'s bytes off that table',
                         'the caller reaches the stub through the vector at 0005h (CALL 5); the strings must not overlap the BIOS pages; Run\'s loop: C08'],
         'explanation': 'on the regenerated CPU model executing the regenerated BIOS bytes: function 2 prints E and returns (7 Steps); function 9 prints exactly the bytes up to the first $ for EVERY string (induction over the string: any length, any bytes, any address incl. wrap) and returns; SP restored, memory untouched; JP 0 halts at FF03h',
